@@ -205,21 +205,13 @@ def replay(path):
     if d['replay'].get('kind') == 'appears':
         common.ensure_built()
         r = appears_case(tuple(d['replay']['item']))
-        print(r.get('verdict'), r.get('violations'))
-        common.cleanup_scratch()
-        if r.get('verdict') == 'violated':
-            print('VIOLATION property=%s replay=%s' % (PROP, path))
-            return 1
-        return 0
+        from ..framework import replay_result
+        return replay_result(PROP, r, path)
     if d['replay'].get('kind') == 'notbefore':
         common.ensure_built()
         it = d['replay']['item']
         r = notbefore_case((it[0], it[1], tuple(it[2]), it[3], it[4]))
-        print(r.get('verdict'), r.get('violations'))
-        common.cleanup_scratch()
-        if r.get('verdict') == 'violated':
-            print('VIOLATION property=%s replay=%s' % (PROP, path))
-            return 1
-        return 0
+        from ..framework import replay_result
+        return replay_result(PROP, r, path)
     from ..replay import replay_history
     return replay_history(PROP, path)
